@@ -80,6 +80,18 @@ pub fn run_proc(sh: &mut Shell, line: &str, tty: bool, capture: bool, Tracked(lg
 { unimplemented!() }
 
 //@FN run_command_line
+
+// ---- execute::run_procs_for_non_tty (C01 / C03): what arrives on standard input of a shell without a terminal is ONE command line -- it is handed to
+// run_command_line once, as it was read (a newline inside quotes is a character of the line like any other; line_to_cmds and the tokenizer decide what it means) ----
+pub uninterp spec fn spec_stdin_text() -> Option<Seq<char>>;
+pub struct VxIoErr { pub e: i32 }
+#[verifier::external_body]
+pub fn vx_read_stdin_to_string(buffer: &mut String) -> (r: Result<usize, VxIoErr>)
+    ensures match r { Ok(_) => spec_stdin_text() == Some(final(buffer)@), Err(_) => spec_stdin_text().is_none() }
+{ unimplemented!() }
+#[verifier::external_body]
+pub fn vx_print_io_error(e: &VxIoErr) { }
+//@FN run_procs_for_non_tty
 ''' + common.TAIL
 
 run_command_line = Fn(
@@ -124,14 +136,28 @@ run_command_line = Fn(
     },
 )
 
+non_tty = Fn('src/execute.rs', 'run_procs_for_non_tty', props=('C01', 'C03'),
+    pre_rewrites=[Rw(r'let stdin = io::stdin\(\);[\s\S]*?match handle\.read_to_string\(&mut buffer\) \{', 'match vx_read_stdin_to_string(&mut buffer) {', regex=True, rule='R10',
+                     why='reading standard input to its end: one opaque shim (the text read, or an error)'),
+                  Rw(r'log!\("run non tty command: \{\}", &buffer\);', '', regex=True, rule='R3', required=False, why='log line'),
+                  Rw(r'println!\("cicada: stdin\.read_to_string\(\) failed: \{:\?\}", e\);', 'vx_print_io_error(&e);', regex=True, rule='R3', why='diagnostic output')],
+    add_params='Tracked(lg): Tracked<&mut RunLog>',
+    ghost_args={'run_command_line': 'Tracked(lg)'},
+    ensures=[('C01+C03.non_tty.the_text_read_from_standard_input_is_run_once_as_one_command_line',
+              'match spec_stdin_text() { '
+              'Some(t) => ran_ok(spec_line_to_cmds(t), final(lg).log, old(lg).log.len() as int, spec_line_to_cmds(t).len() as int) '
+              '&& st(spec_line_to_cmds(t), final(lg).log, old(lg).log.len() as int, spec_line_to_cmds(t).len() as int).2 == final(lg).log.len(), '
+              'None => final(lg).log == old(lg).log }')],
+)
 UNIT = Unit('U-LIST', TEMPLATE,
-            fns=[run_command_line],
+            fns=[run_command_line, non_tty],
             types=[TypeItem('src/types.rs', 'struct', 'CommandResult')],
             props=('C03', 'C05'))
 
 TRUSTED = common.TRUSTED_STR + [
     'run_proc (execute.rs) is external: assumed to run the given pipeline once and return its status; it may change the Shell arbitrarily',
     'line_to_cmds is uninterpreted in this unit (its own separator contract is in U-TOK)',
+    'run_procs_for_non_tty: reading standard input to its end is one opaque shim (the text read, or an error)',
     'Shell is modelled by the single field previous_status (the only one run_command_line touches)',
     'main.rs exits with sh.previous_status for -c / scripts: 3 bin-only lines read, not verified',
 ]
